@@ -755,5 +755,27 @@ template<typename T> struct Fam {
   }
 };
 
+// ------------------------------------------------------------------ serialization helpers
+template<typename CS, typename SD> inline std::string ser_stream_g(const CS& c, const SD& sd) {
+  std::stringstream ss(std::ios::in | std::ios::out | std::ios::binary);
+  c.serialize(ss, sd);
+  return ss.str();
+}
+template<typename CS, typename SD> inline std::string ser_bytes_g(const CS& c, const SD& sd) {
+  auto v = c.serialize(0, sd);
+  return std::string(v.begin(), v.end());
+}
+template<typename CS, typename SD> inline CS deser_stream_g(const std::string& b, uint64_t seed, const SD& sd) {
+  std::stringstream ss(b, std::ios::in | std::ios::binary);
+  return CS::deserialize(ss, seed, sd);
+}
+
+
+// 5 : 2  programs : set-operation families
+template<typename T> void run_typed(uint64_t idx, Rng& r) {
+  const uint64_t h = mix64(idx, 0xC13);
+  if (((h >> 8) % 7) >= 5) Fam<T>::run(idx, r); else Prog<T>::run(idx, r);
+}
+
 }} // namespace vf::c13
 #endif
